@@ -165,6 +165,29 @@ pub fn battery(data: &[u8]) -> Report {
     if let Err(p) = guard(std::panic::AssertUnwindSafe(|| font_level(&mut b, &mut font))) {
         b.rep.panics.push(("battery(unguarded call)", p));
     }
+    // `Font` loads its image tables once, under the filter in force at the first query (the default filter has no EBDT),
+    // so the EBLC/EBDT reader is only reached through a fresh `Font` whose filter is set before the first query
+    if tags.contains(&tag::EBLC) || tags.contains(&tag::EBDT) {
+        if let Some(Ok(p3)) = b.run("table_provider(0)", || fd.table_provider(0)) {
+            if let Some(Ok(mut f2)) = b.run("Font::new", || Font::new(p3)) {
+                b.run("Font::lookup_glyph_image(EBDT)", || {
+                    f2.set_embedded_image_filter(GlyphTableFlags::EBDT);
+                    let n2 = f2.num_glyphs();
+                    let mut k = f2.has_embedded_images() as usize;
+                    for g in glyph_ids(n2) {
+                        for ppem in [0u16, 12, 65535] {
+                            for d in [BitDepth::One, BitDepth::Four, BitDepth::ThirtyTwo] {
+                                if let Ok(Some(_)) = f2.lookup_glyph_image(g, ppem, d) {
+                                    k += 1;
+                                }
+                            }
+                        }
+                    }
+                    k
+                });
+            }
+        }
+    }
     rep
 }
 
